@@ -582,6 +582,14 @@ func c19R2(p *core.Program, r *core.Report) {
 					return true
 				}
 			}
+			// the test was hoisted into a local: the block branches on a value computed from the policy
+			if iff, ok := in.(*ssa.If); ok {
+				for w := range core.BackSlice(iff.Cond, nil) {
+					if c, ok := w.(*ssa.Call); ok && c.Call.IsInvoke() && c.Call.Method.Name() == "RedactionPolicy" {
+						return true
+					}
+				}
+			}
 		}
 		return false
 	}
